@@ -162,6 +162,9 @@ type SentFrame struct {
 	Off   int    `json:"off,omitempty"`   // chunk: offset
 	Chunk bool   `json:"chunk,omitempty"` // a raw file-data unit (not a JT808 frame)
 	Name  HexStr `json:"name,omitempty"`
+	// a frame that carries another identity than its connection's (phone and/or header version): 0 = no, 1 = 2013, 2 = 2019
+	AsVer   int `json:"as_ver,omitempty"`
+	AsPhone Hex `json:"as_phone,omitempty"`
 	// C20: the frame carries the simulator's own default body (CreateDefaultCommandData)
 	Default bool `json:"default,omitempty"`
 }
